@@ -154,6 +154,16 @@ check('C14', 'other',
       'Trusted: CPython json/stdout, translator gen_sites (AST), the battle generator; a print guarded by a condition that no literal of the source satisfies would only be caught by the inventory theorem (reported with no-failing-input-found).',
       'Coq characterisation of encoder refusals + generated stdout-site inventory theorem + CLI runs (observation)', 'DESIGN.md §6 C14')
 
+check('C15', 'other',
+      'Partial. Proved (Coq, closed, for ALL inputs): the framer terminates on every byte string; a successful decode consumes at least min_size(t) '
+      'bytes, hence the element loop of a nested update ends within its budget whenever min_size > 0; a value decoder never runs out of budget; the bit-path '
+      'loop takes >= 1 bit per iteration; the container block loop needs 4 more bytes per iteration whatever count the header claims - i.e. every recursion '
+      'budget of the model is unreachable. Instance check: no array element type of any bundled definition set is zero-sized (15k array types, computed by the '
+      'extracted model). Observed, not proved: wall time, peak resident size and outcome of ReplayParser(strict=False).get_info() in a fresh interpreter on '
+      'single/multiple corruptions of header/blocks, ciphertext and decoded stream; container-intact damage must still return a result object.',
+      'Trusted: CPython, zlib, lxml (time and memory are theirs), the fault generator; zlib bombs are outside the quantifier (corruptions of real files).',
+      'Coq termination bounds for every model loop + generated zero-size-element scan + fault injection under time/RSS observation', 'DESIGN.md §6 C15')
+
 NOT_YET = {}
 ALL = ['C%02d' % i for i in range(1, 20)]
 def main():
